@@ -340,3 +340,66 @@ for _pid in ("C01", "C02", "C03", "C07", "C08", "C09", "C20"):
     PROPS[_pid]["profiles"] = PROPS[_pid]["profiles"] + MAP_PROFILES
     PROPS[_pid]["oracle_fields"] = PROPS[_pid]["oracle_fields"] + MAP_KEY_FIELDS
     PROPS[_pid]["statement_coverage"] = PROPS[_pid]["statement_coverage"].replace("Map pending", "Map: key level proved (C05.keys_converge / keys_rep); nested contents false on the pinned tree (known findings)")
+
+# --------------------------------------------------------------------------------------------
+# C16, C17, C18 (validate_op, validate_merge, reset_remove)
+# --------------------------------------------------------------------------------------------
+PROPS["C18"] = dict(
+    lean_targets=["CrdtModel.Props.C18", "CrdtModel.Witness.ResetRemoveCollision"], audit="CrdtModel/Audit/C18.lean",
+    required_theorems=["Crdt.C18." + t for t in ["vclock_get", "vclock_empty", "vclock_self", "vclock_compose", "vclock_idem", "gcounter_get", "gcounter_self", "gcounter_compose",
+        "pncounter_get", "pncounter_compose", "mvreg_survivors", "mvreg_read_clock", "mvreg_compose", "mvreg_idem", "orswot_reach_wf", "orswot_witness", "orswot_member_iff",
+        "orswot_deferred_contexts", "orswot_deferred_members", "orswot_pending_survives", "orswot_empty", "orswot_own_clock", "orswot_compose", "orswot_idem", "orswot_wf"]]
+        + ["Crdt.Witness.reset_remove_collision_old_loses_pending_remove", "Crdt.C05.rm_step_value_partial"],
+    profiles=[dict(name="rr_hist", quick=1500, thorough=30000), dict(name="vclock_table", quick=100, thorough=2000), dict(name="map_corr", quick=600, thorough=10000)],
+    oracle_fields=["clock", "entries", "deferred", "read", "vals", "state", "p", "n", "empty", "comp", "idem", "noop", "comm", "rc", "rctx", "c0", "c1", "c2", "c3", "iter", "r"],
+    explanation="reset_remove(c) characterised pointwise for ALL well-formed states (every reachable state is well-formed: *_reach_wf) and ALL clocks c: VClock/GCounter/PNCounter entries, MVReg survivors "
+                "(filter + subtract, order kept), Orswot witnesses, members, clock and the deferred table (exact union when contexts collide after subtraction – what fix c462df9 established); laws rr {} = id, "
+                "own clock empties the reads, rr c2 . rr c1 = rr (c1 join c2), idempotence, as whole-state equalities. Map: the step applied to an entry is Entry{clock-c, V::reset_remove(c)} (C05.rm_step_value_partial); "
+                "Map::reset_remove itself is covered by correspondence (map_corr RR commands). Oracle: every RR/RRS line carries the pointwise spec of the new state; RRL evaluates the laws on the implementation.",
+    statement_coverage="full statement proved for VClock, GCounter, PNCounter, MVReg, Orswot; Map: entry-level step proved, whole-map laws by correspondence only",
+    assumptions=["states are well-formed (no stored zero, no empty stored clock) – proved for all reachable states"],
+)
+MANIFEST_TEXT["C18"] = dict(
+    text="Unbounded Lean theorems for all well-formed states and all clocks: reset_remove keeps exactly the data with a witness strictly newer than c, subtracts covered dots, unites pending removes whose contexts collide (after the fix), "
+         "and satisfies rr{}=id, own-clock-empties, composition = join, idempotence as state equalities (VClock, GCounter, PNCounter, MVReg, Orswot). A genuine defect (lost pending remove on collision) was found and fixed (fix: c462df9).",
+    note=NOTE, technique="Lean 4 proof (pointwise characterisation + extensionality) + differential correspondence check", design_ref="DESIGN.md §7 C18")
+
+PROPS["C17"] = dict(
+    lean_targets=["CrdtModel.Props.C17", "CrdtModel.Witness.ValidateMergeAddAll"], audit="CrdtModel/Audit/C17.lean",
+    required_theorems=["Crdt.C17." + t for t in ["orswot_ok_iff", "orswot_ok_iff_shared", "orswot_symmetric", "orswot_ok_reachable", "orswot_misuse_flagged",
+                                                  "lww_merge_conflict_iff", "lww_symmetric", "lww_ok_reachable"]] + ["Crdt.Witness.validate_merge_flags_correct_add_all"],
+    profiles=[dict(name="orswot_vm", quick=1200, thorough=25000), dict(name="lww_conflict", quick=300, thorough=5000), dict(name="lattice_hist", quick=600, thorough=10000),
+              dict(name="map_corr", quick=600, thorough=10000)],
+    oracle_fields=["vm", "vmr"],
+    explanation="Orswot::validate_merge characterised exactly for all states (Ok iff no two different members share a live dot across the two states), symmetric on well-formed states, Ok for all pairs of reachable states in "
+                "histories whose adds name one member each, misuse (one dot live for different members) always flagged; LWWReg conflict iff equal marker and different value, symmetric, never between reachable registers with unique markers. "
+                "Oracle: VM in both directions before every merge in correct-use histories must be ok; GA (same actor at two replicas) histories for the misuse side. Map::validate_merge: correspondence only (map_corr VM commands). "
+                "Known defect: add_all with >= 2 members makes correct use fail (witness replayed).",
+    statement_coverage="Orswot and LWWReg: full statement for single-member adds; add_all: false on the pinned tree (known finding KF-C17-add-all-validate-merge); Map: correspondence only",
+    assumptions=["each actor confined to one replica (LogWF)", "adds name one member each (SingleAdds) for the Ok-under-correct-use theorem"],
+)
+MANIFEST_TEXT["C17"] = dict(
+    text="Unbounded Lean theorems: exact characterisation of Orswot::validate_merge (shared live dot between different members), symmetry, Ok under correct use (single-member adds), misuse always flagged; LWWReg marker conflicts exact. "
+         "Known defect recorded: add_all spends one dot on several members so correct use is flagged.",
+    note=NOTE, technique="Lean 4 proof (loop characterisation + representation theorem) + differential correspondence check", design_ref="DESIGN.md §7 C17")
+
+PROPS["C16"] = dict(
+    lean_targets=["CrdtModel.Props.C16", "CrdtModel.Props.C16Map", "CrdtModel.Props.C15"], audit="CrdtModel/Audit/C16.lean",
+    required_theorems=["Crdt.C16." + t for t in ["vclock_ok_iff", "vclock_error", "orswot_add_ok_iff", "orswot_rm_ok", "orswot_reach_ok_iff", "orswot_reach_gap", "orswot_deliverable_ok",
+                                                  "orswot_known_ok", "list_validate_panics_iff", "list_ok_iff", "list_error", "lww_conflict_iff", "lww_ok_reachable",
+                                                  "map_rm_ok", "map_gap_rejected_partial", "map_ok_no_gap_partial"]]
+        + ["Crdt.C15.validate_op_ok_iff", "Crdt.C15.validate_op_missing_iff", "Crdt.Witness.map_validate_rejects_in_order_op"],
+    profiles=[dict(name="validate_hist", quick=1500, thorough=30000), dict(name="vclock_table", quick=100, thorough=2000), dict(name="list_raw", quick=400, thorough=8000),
+              dict(name="merkle_hist", quick=600, thorough=10000), dict(name="map_corr", quick=600, thorough=10000)],
+    oracle_fields=["v", "vm", "vmr", "r"],
+    explanation="validate_op: VClock Ok iff the dot does not skip a counter (exact DotRange); Orswot on reachable states of a contiguous log: Ok iff all earlier adds of the author are known (so Ok at the origin, on re-delivery, "
+                "for everything the delivery discipline admits) and the exact DotRange(actor, clk+1 .. counter) otherwise; removes always Ok; List: clock check on the op's dot (panic on an empty identifier modelled); "
+                "MerkleReg: Ok iff all children in the dag, MissingChild = least missing child; LWWReg marker conflict. Map: gap at map level always rejected (partial); acceptance of in-order ops is FALSE on the pinned tree "
+                "(entry-clock check, known finding KF-C16-map-validate-op-second-key).",
+    statement_coverage="proved for VClock, Orswot, List (all states), MerkleReg, LWWReg; Map: partial (gap detection) + known finding",
+    assumptions=["an actor's dots are contiguous in the log (Contiguous U: what API generation gives)"],
+)
+MANIFEST_TEXT["C16"] = dict(
+    text="Unbounded Lean theorems per type: validate_op accepts exactly the ops that do not skip one of the author's updates (VClock, Orswot on reachable states with the exact DotRange, List), flags unseen children (MerkleReg) and marker conflicts (LWWReg). "
+         "Map: map-level gap detection proved; the entry-clock check rejects correct in-order ops – recorded as a known finding with a kernel-checked witness.",
+    note=NOTE, technique="Lean 4 proof (representation theorem + clock arithmetic) + differential correspondence check", design_ref="DESIGN.md §7 C16")
